@@ -97,6 +97,7 @@ func (dm *DagModifier) WriteAt(b []byte, offset int64) (int, error) {
 		// If we would overwrite the previous write
 		if len(b) >= dm.wrBuf.Len() {
 			dm.wrBuf.Reset()
+			dm.curWrOff = dm.writeStart
 		}
 	} else if uint64(offset) != dm.curWrOff {
 		size, err := dm.Size()
@@ -115,6 +116,7 @@ func (dm *DagModifier) WriteAt(b []byte, offset int64) (int, error) {
 			return 0, err
 		}
 		dm.writeStart = uint64(offset)
+		dm.curWrOff = uint64(offset)
 	}
 
 	return dm.Write(b)
